@@ -109,7 +109,7 @@ def gen_multi(rng, tier, force=None):
     while True:
         lb = rng.choice(BATCHES)
         db = rng.choice(BATCHES)
-        if expandable(lb, db):
+        if broadcastable(lb, db) is not None:
             break
     t = force.get("t", rng.randint(1, 4))
     n = rng.randint(1, 4 if t <= 3 else 3)
@@ -555,8 +555,7 @@ def run(out, ctx):
     out.rule = ("configuration grid {FixedNoise: learn_additional_noise x call-time noise; Multitask: t 1..4 x rank 0..t x "
                 "(global,task) switches x layout} plus random Gaussian / FixedNoise / Multitask / LikelihoodList cases; "
                 "event sizes 1..4 (n*t <= 16), likelihood / stored-noise / call-noise / distribution batch shapes of rank "
-                "0..2 drawn from %s (broadcastable; multitask: likelihood batch expandable to the distribution batch, "
-                "the documented contract of its batch_shape); every element of the broadcast batch is compared; "
+                "0..2 drawn from %s (any broadcastable combination, multitask included); every element of the broadcast batch is compared; "
                 "non-trivial = flattened event size >= 2" % BATCHES)
     out.extra["tolerances"] = {"all": "1e-9 abs + 1e-9 rel"}
     evaluate(out, cfgs, "C12")
